@@ -219,8 +219,8 @@ func checkAuthBits(c *km.Ctx, s *km.Sem, checkAuth *ssa.Function, rule string) {
 			}
 		}
 	})
-	if nBits < 3 {
-		c.R.AnchorLost(rule, sprintf("credential-bit grants in checkAuth (found %d, expected 3)", nBits))
+	if nBits < 2 {
+		c.R.AnchorLost(rule, sprintf("credential-bit grants in checkAuth (found %d, expected at least 2)", nBits))
 	}
 
 	checkIPRestrictedHelper(c, s, rule)
